@@ -45,10 +45,10 @@ type fileRW struct {
 }
 
 var (
-	repo   = flag.String("repo", "/repo", "repository root")
-	out    = flag.String("out", "", "output directory (rewritten files + overlay.json)")
-	inject = flag.String("inject", "/verif/inject", "directory with files to add to packages (<pkgdir>/zz_*.go)")
-	record = flag.Bool("record", true, "insert plain-access recording (T6)")
+	repo      = flag.String("repo", "/repo", "repository root")
+	out       = flag.String("out", "", "output directory (rewritten files + overlay.json)")
+	inject    = flag.String("inject", "/verif/inject", "directory with files to add to packages (<pkgdir>/zz_*.go)")
+	record    = flag.Bool("record", true, "insert plain-access recording (T6)")
 	recordAll = flag.Bool("recordall", true, "also record (race check only, no scheduling point) every other addressable non-struct field of the rewritten packages' own types")
 )
 
@@ -63,6 +63,10 @@ var recordedFields = map[string]bool{
 	"p9.pool.cache": true, "p9.pool.start": true,
 	"p9.Client.pending": true,
 }
+
+// []byte fields whose CONTENTS are recorded for the race check (pooled
+// buffers): vrt.SliceR/SliceW instead of vrt.FRq/FWq.
+var contentFields = map[string]bool{"p9.buffer.data": true}
 
 // Best-effort object caches implemented as channels: selects on them use
 // vsched.SelectCache.
@@ -512,6 +516,9 @@ func rewriteFile(p *packages.Package, f *ast.File, rw *fileRW) {
 					fn := "(*vrt.FRq(&"
 					if written[x] {
 						fn = "(*vrt.FWq(&"
+					}
+					if contentFields[key] {
+						fn = strings.Replace(strings.Replace(fn, "FRq", "SliceR", 1), "FWq", "SliceW", 1)
 					}
 					rw.insert(x.Pos(), fn, 3)
 					rw.insert(x.End(), fmt.Sprintf(", %q, %q))", key, rw.site(x.Pos())), 6)
